@@ -19,6 +19,7 @@ from pathlib import Path
 
 import lib
 import c09_nested
+import c09_cond
 
 PROP = "C09"
 UN = 0  # the "unbound" pseudo definition
@@ -1304,10 +1305,31 @@ def run(tier: str, replay: str | None = None):
                        "what": what, "observed": observed, "expected": expected, "how_to_run": "./check C09 --replay <this file>",
                        "oracle": "Python's symtable (which variable a name denotes) and execution under CPython for every script of the opaque conditions (harness/c09_nested.py)"})
 
+    # ---- conditions that mention the tracked variable (oracle stream, see c09_cond.py)
+    cond_progs = []
+    if replay:
+        r_in = json.loads(Path(replay).read_text())["input"]
+        if "cond_program" in r_in:
+            cond_progs = [r_in["cond_program"]]
+    else:
+        cp = lib.VERIF / "harness" / "corpus" / "C09_cond.json"
+        if cp.exists():
+            cond_progs += json.loads(cp.read_text())
+        n_cond = 130 if tier == "quick" else 1500
+        while len(cond_progs) < n_cond:
+            cond_progs.append(c09_cond.gen_program(rng))
+    cond_fail, cond_uses, cond_src = c09_cond.run_stream(cond_progs, impl_run) if cond_progs else ([], 0, [])
+    n_uses += cond_uses
+    hist["verdict"]["use in the conditions-on-the-variable stream"] = cond_uses
+    for (i, ln, what, observed, expected) in cond_fail[:6]:
+        rep.violation({"kind": "failing-input", "input": {"cond_program": cond_progs[i], "source": cond_src[i], "use_line": ln},
+                       "what": what, "observed": observed, "expected": expected, "how_to_run": "./check C09 --replay <this file>",
+                       "oracle": "execution under CPython for every script of the opaque calls (harness/c09_cond.py)"})
+
     for (i, u, what, observed, expected) in failing[:10]:
         rep.violation({"kind": "failing-input", "input": payload(i, u, {}), "what": what, "observed": observed, "expected": expected,
                        "how_to_run": "./check C09 --replay <this file>", "oracle": "independent strict/liberal reaching definitions (class Flow in harness/c09.py)"})
-    found_input = bool(failing) or bool(nested_fail)
+    found_input = bool(failing) or bool(nested_fail) or bool(cond_fail)
     if corr_mismatch and not found_input:
         i, u, got, mset = corr_mismatch[0]
         rep.violation({"kind": "broken-correspondence", "correspondence": "Scopes.Analysis.analyse vs NameCheckVisitor (reveal_type, undefined_name, possibly_undefined_name)",
@@ -1336,7 +1358,8 @@ def run(tier: str, replay: str | None = None):
         traces_validated_against_impl=n_uses - len(corr_mismatch),
         input_distribution={k: dict(v) for k, v in hist.items()},
         correspondence_mismatches=len(corr_mismatch),
-        property_failures=len(failing) + len(nested_fail),
+        property_failures=len(failing) + len(nested_fail) + len(cond_fail),
+        cond_stream={"programs": len(cond_progs), "uses": cond_uses},
         nested_stream={"programs": len(nested_progs), "uses": nested_uses, "known": dict(nested_known)},
         known_finding_uses=dict(known_seen),
         spec_validation={"executed_pairs": exec_pairs_total, "executed_outside_strict_or_liberal": len(spec_errors),
